@@ -352,14 +352,21 @@ def _judge_fit(ctx, model, X, fds, templates, info):
             ctx.check("c09.options-per-dimension", okopt, f"dimension {i}: fit options (method, weights) are not the ones declared for that dimension", got=[f["method"], _wdesc(f["weights"])], want=[want_m, _wdesc(want_w)], dimension=i, **info)
             ctx.check("c09.marginal-data", f["data"].shape == (len(X),) and np.array_equal(f["data"], X[:, i]), f"dimension {i}: the marginal fit did not receive exactly its own column", dimension=i, **info)
             continue
-        if si >= len(slices):
-            ctx.inconcl("slice_ call not observed")
-            return
-        sl = slices[si]
-        si += 1
-        slicer = sl["slicer"]
-        masks, refs, bnds = sl["result"]
-        ctx.check("c09.slicer-of-conditioning-dimension", slicer is model.interval_slicers[cidx] and np.array_equal(sl["data"], X[:, cidx]), f"dimension {i}: the data were not sliced by the slicer and the column of its conditioning dimension {cidx}", dimension=i, **info)
+        # the slice_ call of this dimension, if one was observed for its conditioning column; the verdict on the
+        # interval data does not depend on HOW the implementation obtained the intervals, so if no call was observed
+        # (e.g. a cached split) the intervals are recomputed with the configured slicer
+        sl = None
+        if si < len(slices) and slices[si]["slicer"] is model.interval_slicers[cidx] and np.array_equal(slices[si]["data"], X[:, cidx]):
+            sl = slices[si]
+            si += 1
+            ctx.count("c09.slice-call-observed")
+        slicer = model.interval_slicers[cidx]
+        if sl is not None:
+            masks, refs, bnds = sl["result"]
+        else:
+            ctx.count("c09.slice-call-not-observed-recomputed")
+            with M.quiet():
+                masks, refs, bnds = slicer.slice_(X[:, cidx])
         kind = slicemon.kind_of(slicer)
         cond = X[:, cidx]
         n_int = len(bnds)
